@@ -253,6 +253,36 @@ def _split(n, parts):
     return fn
 
 
+def _report_real_se3(P, g):
+    """REAL SE(3) odometry edge, the free vertex's stored quaternion of ARBITRARY length (vertices are never normalised by
+    the library): the report of a one-iteration run is the graph's chi^2 at the states before / after the update, the
+    returned graph IS the final state (final_chi2 == calc_chi2()), and a second call starts exactly where the first ended"""
+    from .common import mk_pose
+
+    np = P.np
+    env = install_stubs(P, g)
+    v0 = g.Vertex(0, mk_pose(P, g, "SE3", "v0"), fixed=True)
+    v1 = g.Vertex(1, g.PoseSE3(P.reals("v1", 3), P.reals("v1_rawq", 4)))
+    e = g.EdgeOdometry([0, 1], P.sym_matrix("om", 6, psd=True), mk_pose(P, g, "SE3", "z"))
+    graph = g.Graph([e], [v0, v1])
+    chi_before = graph.calc_chi2()
+    import warnings
+
+    with warnings.catch_warnings():
+        warnings.simplefilter("ignore")
+        r1 = graph.optimize(tol=0.0, max_iter=1, fix_first_pose=False, verbose=False)
+    pose_after = v1.pose.to_array()
+    chi_after = graph.calc_chi2()
+    P.check_eq("initial_chi2_is_graph_chi2", r1.initial_chi2, chi_before)
+    P.check_eq("final_chi2_is_calc_chi2_of_returned_graph", r1.final_chi2, chi_after)
+    P.check_eq("last_iteration_chi2", r1.iteration_results[-1].chi2, chi_after)
+    with warnings.catch_warnings():
+        warnings.simplefilter("ignore")
+        r2 = graph.optimize(tol=0.0, max_iter=1, fix_first_pose=False, verbose=False)
+    P.check_eq("second_call_starts_where_first_ended", r2.initial_chi2, r1.final_chi2)
+    P.check_eq("second_call_final", r2.final_chi2, graph.calc_chi2())
+
+
 def cases(tier):
     mi = 4 if tier == "quick" else 7
     ns = 4 if tier == "quick" else 6
@@ -261,6 +291,10 @@ def cases(tier):
         out.append(Case("report-singular-maxiter%d" % m, _report(m, isolated=True), timeout=20, old_timeout=30, validate=2, feas_timeout_ms=3000))
     for m in (2, 3):
         out.append(Case("report-anysign-maxiter%d" % m, _report(m, anysign=True), timeout=20, old_timeout=30, validate=2, feas_timeout_ms=3000))
+    # (shadow=False: with a non-unit quaternion the 6x6 system is badly conditioned, and the float64 run's SuperLU solution and
+    # the shadow run's dense solve differ by 1e-5 relative - the float64 run is still the reachability witness and checks
+    # every obligation on the real code)
+    out.append(Case("report-real-se3-rawquat", _report_real_se3, timeout=20, old_timeout=30, validate=2, feas_timeout_ms=3000, shadow=False))
     out.append(Case("edited-between-calls", _edited_between_calls, timeout=20, old_timeout=30, validate=3, feas_timeout_ms=3000))
     for n in range(1, ns + 1):
         for parts in _compositions(n):
